@@ -8,9 +8,11 @@ ids = [p["id"] for p in props]
 na = json.load(open(os.path.join(ROOT, "props", "not_applicable.json")))
 checks, engines = [], {}
 claimed = set()
+# only checks that have been reviewed and pass on the unchanged tree are registered (props/READY, one id per line)
+ready = set(l.strip() for l in open(os.path.join(ROOT, "props", "READY")) if l.strip() and not l.startswith("#"))
 for pid in ids:
     f = os.path.join(ROOT, "props", pid + ".py")
-    if not os.path.exists(f):
+    if not os.path.exists(f) or pid not in ready:
         continue
     spec = importlib.util.spec_from_file_location("prop_" + pid, f)
     mod = importlib.util.module_from_spec(spec); spec.loader.exec_module(mod)
